@@ -14,19 +14,22 @@ from . import cond as C
 E, Q, O = "E", "Q", "O"
 SIZES = (E, Q, O)
 # second component: result of the most recent fill of V on this path ("T" found, "F" keyword absent, "-" none yet)
-TOP = frozenset((s, g) for s in SIZES for g in ("T", "F", "-"))
+# third component: value of one correlated boolean local ("T", "F", "?"), see SizeFlow.track_flag
+TOP = frozenset((s, g, b) for s in SIZES for g in ("T", "F", "-") for b in ("T", "F", "?"))
 
 
 def sizes(st):
-    return frozenset(s for s, _ in st)
+    return frozenset(x[0] for x in st)
 
 
 def lift(ss, g="-"):
-    return frozenset((s, g) for s in ss)
+    return frozenset((s, g, "?") for s in ss)
 
 CONST_METHODS = ("size", "empty", "begin", "end", "cbegin", "cend", "rbegin", "rend", "at", "back", "front", "data",
                  "capacity", "reserve", "operator[]", "max_size")
 FILL = ("colvarparse::get_keyval",)
+GROUP_FILL = ("add_index_group", "add_atom_numbers", "add_atom_numbers_range", "add_atom_name_residue_range", "add_atom",
+              "add_atoms_of_group", "parse")
 
 
 def norm(f, n):
@@ -41,6 +44,7 @@ class SizeFlow:
         self.cfg = f.cfg
         self.entry = lift(entry)
         self.flag_q = set()      # member flags that are set to true only where the length is known to equal the bound
+        self.flag_d = None       # declaration id of one boolean local whose value is tracked along the paths
         self.size_key = self.vk + ".size()"
         self._in = None
         self.notes = []
@@ -49,8 +53,24 @@ class SizeFlow:
     def is_v(self, n):
         return n is not None and X.re_strip(X.key(n, self.f)) == self.vk
 
-    def is_size(self, n):
+    def alias(self, n):
+        """an integer local whose only definition is its initialiser stands for that initialiser."""
         n = X.strip(n)
+        if n["k"] == "DeclRefExpr" and n.get("st") == "local":
+            if not hasattr(self, "_alias"):
+                from .rules_c10 import lvalue_writes
+                written = {X.strip(t).get("d") for w, t in lvalue_writes(self.f) if X.strip(t)["k"] == "DeclRefExpr"}
+                self._alias = {}
+                for d in self.f.walk():
+                    if d["k"] == "VarDecl" and d.get("st") == "local" and X.kids(d) and d.get("d") not in written:
+                        self._alias[d["d"]] = X.kids(d)[0]
+            init = self._alias.get(n.get("d"))
+            if init is not None:
+                return X.strip(init)
+        return n
+
+    def is_size(self, n):
+        n = self.alias(n)
         if n["k"] == "CXXMemberCallExpr" and (n.get("cq") or "").split("::")[-1] in ("size", "length"):
             return self.is_v(X.receiver(n))
         return False
@@ -58,7 +78,7 @@ class SizeFlow:
     def is_bound(self, n):
         if self.lit is not None:
             return C._lit(X.strip(n)) == self.lit
-        return norm(self.f, n) == self.B
+        return norm(self.f, self.alias(n)) == self.B
 
     def resolve_bool(self, n, at):
         """a boolean local whose only definition reaching `at` is its initialiser -> that initialiser."""
@@ -98,6 +118,8 @@ class SizeFlow:
             return out
         if self.is_fill(n):
             return {s: ({True} if s[1] == "T" else {False} if s[1] == "F" else {False, True}) for s in TOP}
+        if n["k"] == "DeclRefExpr" and self.flag_d is not None and n.get("d") == self.flag_d:
+            return {s: ({True} if s[2] == "T" else {False} if s[2] == "F" else {False, True}) for s in TOP}
         if n["k"] == "MemberExpr" and X.key(n, self.f) in self.flag_q:
             return {s: ({False, True} if s[0] == Q else {False}) for s in TOP}
         if n["k"] == "CXXMemberCallExpr" and (n.get("cq") or "").split("::")[-1] == "empty" and self.is_v(X.receiver(n)):
@@ -111,6 +133,11 @@ class SizeFlow:
                 a, b = b, a
                 op = {"<": ">", ">": "<", "<=": ">=", ">=": "<="}.get(op, op)
             if not self.is_size(a):
+                if self.lit is None:
+                    for p, q, o in ((a, b, op), (b, a, {"<": ">", ">": "<", "<=": ">=", ">=": "<="}.get(op, op))):
+                        if self.is_bound(p) and C._lit(X.strip(q)) == 0:
+                            v = {"==": False, "!=": True, ">": True, ">=": True, "<": False, "<=": False}[o]
+                            return {s: {v} for s in TOP}
                 return None
             if C._lit(X.strip(b)) == 0 and self.lit != 0:
                 tab = {"==": (True, False), "!=": (False, True), ">": (False, True), ">=": (True, True), "<": (False, False), "<=": (True, False)}[op]
@@ -125,6 +152,20 @@ class SizeFlow:
     @staticmethod
     def _by_size(d):
         return {s: d[s[0]] for s in TOP}
+
+    def track_flag(self, use):
+        """a boolean local that guards the use and is assigned literals in this function: tracked path-sensitively."""
+        from .rules_c03 import structural_guards
+        from .rules_c10 import lvalue_writes
+        for cn, pol in structural_guards(self.f, use):
+            for m in _walk(cn):
+                if m["k"] == "DeclRefExpr" and m.get("st") == "local" and "bool" in self.f.typestr(m.get("t")):
+                    d = m.get("d")
+                    ws = [w for w, t in lvalue_writes(self.f) if X.strip(t)["k"] == "DeclRefExpr" and X.strip(t).get("d") == d]
+                    if ws and all(w["k"] == "BinaryOperator" and w.get("op") == "=" and C._lit(X.strip(X.kids(w)[1])) in (0, 1) for w in ws):
+                        self.flag_d = d
+                        self._in = None
+                        return
 
     def is_fill(self, n):
         n = X.strip(n)
@@ -180,29 +221,42 @@ class SizeFlow:
     def apply(self, n, st):
         """state after executing CFG element n."""
         k = n["k"]
+        if self.flag_d is not None:
+            if k == "BinaryOperator" and n.get("op") == "=":
+                t = X.strip(X.kids(n)[0])
+                if t["k"] == "DeclRefExpr" and t.get("d") == self.flag_d:
+                    v = C._lit(X.strip(X.kids(n)[1]))
+                    return frozenset((x[0], x[1], "T" if v == 1 else "F" if v == 0 else "?") for x in st)
+            if k in ("DeclStmt", "VarDecl"):
+                for d in ([n] if k == "VarDecl" else [c for c in X.kids(n) if c is not None and c["k"] == "VarDecl"]):
+                    if d.get("d") == self.flag_d and X.kids(d):
+                        v = C._lit(X.strip(X.kids(d)[0]))
+                        return frozenset((x[0], x[1], "T" if v == 1 else "F" if v == 0 else "?") for x in st)
         if k in ("CXXMemberCallExpr", "CallExpr"):
             cq = n.get("cq") or ""
             args = X.call_args(n)
             if cq in FILL and len(args) >= 3 and self.is_v(args[2]):
                 out = set()
-                for s, _ in st:
-                    out.add((s, "F"))                       # keyword absent: V unchanged
+                for s, _, b in st:
+                    out.add((s, "F", b))                    # keyword absent: V unchanged
                     if s == E:
-                        out |= {(E, "T"), (Q, "T"), (O, "T")}   # as many values as the user wrote
+                        out |= {(E, "T", b), (Q, "T", b), (O, "T", b)}   # as many values as the user wrote
                     else:
-                        out.add((s, "T"))                   # a non-empty vector keeps its length
+                        out.add((s, "T", b))                # a non-empty vector keeps its length
                 return frozenset(out)
             r = X.receiver(n) if k == "CXXMemberCallExpr" else None
             if r is not None and self.is_v(r):
                 m = cq.split("::")[-1]
+                if m in GROUP_FILL and "atom_group" in cq:
+                    return frozenset((x, "-", y[2]) for x in SIZES for y in st)   # as many atoms as the index file / the user lists
                 if m in CONST_METHODS:
                     return st
                 if m in ("resize", "assign") and args and self.is_bound(args[0]):
-                    return frozenset((Q, g) for _, g in st)
+                    return frozenset((Q, x[1], x[2]) for x in st)
                 if m == "clear":
-                    return frozenset((E, g) for _, g in st)
+                    return frozenset((E, x[1], x[2]) for x in st)
                 self.notes.append("line %s: %s() changes the length" % (n.get("l"), m))
-                return TOP
+                return frozenset((z, x[1], x[2]) for z in SIZES for x in st)
             # escapes
             esc = [i for i, a in enumerate(args) if self._mentions_v_lvalue(a)]
             if esc:
@@ -216,13 +270,13 @@ class SizeFlow:
                     if g is not None and self.preserves_size(g, i):
                         continue
                     self.notes.append("line %s: passed to %s, which may change the length" % (n.get("l"), cq))
-                    return TOP
+                    return frozenset((z, x[1], x[2]) for z in SIZES for x in st)
             return st
         if k == "CXXOperatorCallExpr" and n.get("op") == "=":
             args = X.call_args(n)
             if args and self.is_v(args[0]):
                 self.notes.append("line %s: assigned" % n.get("l"))
-                return TOP
+                return frozenset((z, x[1], x[2]) for z in SIZES for x in st)
         return st
 
     def _mentions_v_lvalue(self, a):
